@@ -491,7 +491,7 @@ func c15module(sc *c15schema, ts []c15type) (*meta.Module, string, error) {
 var c15reused [8]*nodeutil.JSONWtr
 
 func C15(c *core.Ctx) {
-	c.Rule = "generated schemas (every built-in leaf type incl. empty, enum, bits, identityref, union, 64-bit extremes, leaf-lists; containers, keyed lists, nodes contributed by a grouping of an imported module) × conforming trees × all 8 writer configurations (Pretty × EnumAsIds × QualifyNamespace) × start selection (root, container, list, list entry); output (i) parsed by encoding/json as exactly one value and compared with the expected RFC 7951 value, (ii) compared byte-for-byte with the Lean writer model (compact), (iii) pretty output minus insignificant white space = compact output, (iv) failing output stream at every byte position of small documents. non-trivial = document with ≥2 members and a nested container or list; distinct by (schema, tree, configuration, start)"
+	c.Rule = "generated schemas (every built-in leaf type incl. empty, enum, bits, identityref, union, 64-bit extremes, leaf-lists; containers, keyed lists, nodes contributed by a grouping of an imported module) × conforming trees × all 8 writer configurations (Pretty × EnumAsIds × QualifyNamespace) × start selection (root, container, list, list entry); output (i) parsed by encoding/json as exactly one value and compared with the expected RFC 7951 value, (ii) compared byte-for-byte with the Lean writer model (compact), (iii) pretty output minus insignificant white space = compact output, (iv) failing output stream at every byte position of small documents; leafref types and odd enum names as in C04; the first schema of every run holds every type once as leaf and once as leaf-list. non-trivial = document with ≥2 members and a nested container or list; distinct by (schema, tree, configuration, start)"
 	c.Assumptions = append(c.Assumptions,
 		"encoding/json (Decoder.UseNumber, one value then EOF) is the RFC 8259 reader for the byte level; the Lean theorems are on the token level plus the string codec",
 		"the expected value follows RFC 7951 except that 64-bit integers and decimal64 are expected as JSON numbers (what the library documents); their precision in a JSON *reader* is C04's concern")
